@@ -572,6 +572,15 @@ func (c *classEval) run(list []ast.Stmt, st ceState, k func(ceState), onRet ceRe
 		if len(v.Results) == 1 {
 			ret = v.Results[0]
 			if call, ok := ast.Unparen(ret).(*ast.CallExpr); ok {
+				// a function value picked by a selector function / table: read as first-order code
+				if _, isHO := ast.Unparen(call.Fun).(*ast.CallExpr); isHO {
+					if blk := defunctionalise(c.p, c.fi, call); blk != nil {
+						st2 := st.fork()
+						st2.inl = true
+						c.run([]ast.Stmt{blk}, st2, func(s2 ceState) { onRet(s2, nil, v.Pos()) }, onRet)
+						return
+					}
+				}
 				if fi := c.inlinable(&st, call); fi != nil {
 					c.inline(st, fi, call, onRet)
 					return
